@@ -11,6 +11,11 @@ IM = 'rnacos::naming::model::Instance::'
 
 
 def run(ck, fb):
+    _run0(ck, fb)
+    r13e(ck, fb)
+
+
+def _run0(ck, fb):
     ck.explanation = (
         'Decides necessary conditions of the heartbeat clock: (a) who is subject to it: the truth table of Instance::is_enable_timeout over '
         '{ephemeral, from_grpc, from_cluster} equals "ephemeral && !grpc && not owned by another node" (exhaustive interpretation of the '
@@ -199,3 +204,39 @@ def run(ck, fb):
             # both are subtractions from the current time
             subs = [st for (i, j, st) in tc.stmts() if st.get('rv', {}).get('k') == 'bin' and st['rv']['op'] in ('Sub', 'SubWithOverflow')]
             ck.require(len(subs) >= 2, 'R13d', 'time_check:now-minus-timeout', tc.where(), 'cut-offs are not computed as now - timeout')
+
+
+def r13e(ck, fb):
+    ck.rule('R13e', 'a heartbeat carries its own liveness: in Service::update_instance the fields `healthy` and `last_modified_millis` of the incoming '
+                    'instance are never overwritten from the stored record (neither by assignment nor by clone_into), in any merge branch - the '
+                    'stored record may only hand down registration data (register_time, owner fields, enabled / ephemeral / weight / metadata)')
+    b = ck.body(SV + 'update_instance', 'R13e')
+    if not b:
+        return
+    from rn.facts import op_place, pl_local, pl_proj, rv_operands
+    FORBID = ('healthy', 'last_modified_millis')
+    inst = 2   # parameter `instance`
+    told = Taint(b, call_src=lambda t: (t.get('f') or {}).get('d', '').endswith('HashMap::<K, V, S>::get') or (t.get('f') or {}).get('d', '').endswith('::get'))
+    n = 0
+    bad = []
+    for s in b.calls(r'ToOwned>::clone_into$|Clone>::clone_from$'):
+        n += 1
+        d = cfg.describe_operand(b, s.args[1])
+        txt = cfg.fmt_desc(d)
+        dst_fields = d.get('fields') or []
+        root = d.get('root', {})
+        if dst_fields and dst_fields[-1] in FORBID and root.get('k') == 'arg' and root.get('l') == inst:
+            bad.append((s.where(), dst_fields[-1]))
+        elif d['k'] not in ('place',) and any(('.' + f) in txt for f in FORBID):
+            bad.append((s.where(), txt[:40]))
+    for (i, j, st) in b.stmts():
+        dpl = st.get('d')
+        if isinstance(dpl, dict) and pl_local(dpl) == inst:
+            fs = [e.get('f') for e in pl_proj(dpl) if isinstance(e, dict) and 'f' in e]
+            if fs and fs[-1] in FORBID and st.get('rv') and any(told.op_tainted(o) for o in rv_operands(st['rv'])):
+                bad.append((b.where(i), fs[-1]))
+    ck.floor('R13e', 'merge sites (clone_into) in update_instance', n, 4)
+    ck.require(not bad, 'R13e', 'update_instance:liveness-not-inherited', bad[0][0] if bad else b.where(),
+               'the incoming instance takes %s from the stored record: a heartbeat that arrives after the instance was marked unhealthy no longer '
+               'makes it healthy again (it stays listed unhealthy while heart-beating), and because an already-unhealthy instance is not queued for '
+               'removal again it is never removed once the stale removal entry has been skipped' % sorted(set(x[1] for x in bad)))
